@@ -276,3 +276,12 @@ def next_page(vc):
     vc.check('post/waiters-block-again', fut.attrs['_event'].flag is False)
     vc.check('post/paging-state-on-message', fut.attrs['message'].attrs['paging_state'] == b'state-1')
     vc.check('post/one-request-sent', len(world.sends()) == 1 and world.sends()[0][2] is fut.attrs['message'])
+
+
+# A ResponseFuture completes once only if the connection hands its callback each outcome once: a handler errored twice by a failing connection
+# schedules two retries and both answers complete the future.  The connection-side contract (every outstanding handler exactly once) is C10's;
+# the two obligations the future relies on are re-discharged here.
+from contracts import c10_defunct as _C10
+_CQ = 'cassandra.connection.Connection.'
+harness('C14', 'connection-errors-each-handler-once', functions=[_CQ + 'defunct', _CQ + 'error_all_requests', _CQ + 'error_all_cp_sessions'], native='contracts.native.c10:replay')(_C10.defunct)
+harness('C14', 'connection-errors-each-handler-once[many]', functions=[_CQ + 'error_all_requests'], native='contracts.native.c10:replay')(_C10.many)
